@@ -250,6 +250,7 @@ def main():
     kf = known_findings(PROP)
     known = {k: t for kind, k, t in kf if kind == "known" and k}
     X = None
+    QB = None
     os.makedirs(os.path.join(REPLAYS, PROP), exist_ok=True)
     try:
         binary = build_driver()
@@ -348,33 +349,46 @@ def main():
             log("  note: known finding variable-nested-in-object-argument no longer reproduces")
         queries.append({"query": "C09 used-subset-of-collected per shape", "shape_queries": n_q, "unsat_shapes": n_unsat, "solver_s": round(solver_s, 2)})
         log("  %d shape queries, %d unsat, %d violations (%.1fs solver)" % (n_q, n_unsat, len(violations), solver_s))
+        # ---- clause B: the operation text the runtime evaluates from the query_text module is the text the compiler printed
+        import qtmod
+        QB = qtmod.run_clause("value", T_, PROP)
+        violations += QB["violations"]
+        infra += QB["infra"]
     except Inconclusive as e:
         infra.append(str(e))
 
     n_q = sum(q.get("shape_queries", 0) for q in queries)
     n_unsat = sum(q.get("unsat_shapes", 0) for q in queries)
     cov = {
-        "explanation": "One clause of C09 ('every variable it uses is declared'): the variables collected for an operation's declarations "
+        "explanation": "Two clauses of C09; (B) is described under clause_b_query_text_module. (A) ('every variable it uses is declared'): the variables collected for an operation's declarations "
                        "(get_reachable_variables) versus the variables its printed text uses (generate_query_text). Both recursive functions are "
                        "re-read from source and applied to enumerated selection/argument tree shapes; z3 decides over all variable names per shape; "
                        "models are replayed with the real crates.",
         "functions_encoded": ["MergedServerSelection::reachable_variables", "get_variables", "get_reachable_variables", "NonConstantValueInner::variables",
                               "write_selections_for_query_text", "get_serialized_arguments_for_query_text", "serialize_non_constant_value_for_graphql"],
         "extracted": X,
-        "source_fingerprint": repo_fingerprint([F_MERGE, F_QT, F_ARG]),
+        "clause_b_query_text_module": None if QB is None else {
+            "question": "for every string literal argument (units: plain character of the lexer's class / two-character escape / \\uXXXX, all characters symbolic) the string that the "
+                        "query_text module export default '<operation text>'; evaluates to (strict-mode ECMAScript string-literal lexer executed symbolically) equals the operation "
+                        "text the compiler printed, line continuations removed - i.e. the server receives the GraphQL string tokens the compiler wrote",
+            "extracted": QB["extracted"], "bounds": QB["bounds"], "shapes": QB["n_shapes"], "lexer_paths": QB["n_paths"], "solver_queries": QB["n_queries"],
+            "solver_time_s": round(QB["solver_s"], 2), "paths_with_equal_value": QB["n_unsat"], "translator_validation_inputs_agreeing": QB["n_valid"], "samples": QB["samples"][:3]},
+        "source_fingerprint": repo_fingerprint([F_MERGE, F_QT, F_ARG] + __import__("qtmod").FILES),
         "bounds": dict(B, trees="one scalar field; a linked field with one child; an inline fragment with one child; a linked field with a fragment child",
                        values="Variable, Integer, Null, Object of <= 2 entries nested to vdepth; <= 2 arguments"),
-        "queries": queries, "queries_discharged": n_q, "solver_time_s": round(sum(q["solver_s"] for q in queries), 2),
-        "translator_validation_inputs_agreeing": n_valid,
-        "evaluations": n_q + n_valid, "distinct_nontrivial": n_unsat + len(samples),
+        "queries": queries, "queries_discharged": n_q + (QB["n_queries"] if QB else 0), "solver_time_s": round(sum(q["solver_s"] for q in queries) + (QB["solver_s"] if QB else 0), 2),
+        "translator_validation_inputs_agreeing": n_valid + (QB["n_valid"] if QB else 0),
+        "evaluations": n_q + n_valid + ((QB["n_shapes"] + QB["n_valid"]) if QB else 0), "distinct_nontrivial": n_unsat + len(samples) + (QB["n_unsat"] if QB else 0),
         "rule": "evaluations = per-shape SMT queries + validation trees on which the encoding's used/collected sets equal the real code's; "
-                "distinct_nontrivial = shapes decided unsat + distinct sat models replayed natively",
+                "distinct_nontrivial = shapes decided unsat + distinct sat models replayed natively; clause B adds one evaluation per string shape and per probe and one "
+                "distinct_nontrivial per lexer path whose value is proved equal",
         "samples": samples[:6] or [{"note": "none"}],
         "exhaustive": False,
         "known_findings_reported": known_lines,
     }
     assumptions = [
-        "PARTIAL: only the clause 'every variable the operation uses is among the variables collected for its declarations'; parsing and validating the operation "
+        "PARTIAL: two clauses: (A) 'every variable the operation uses is among the variables collected for its declarations'; (B) the operation text reaches the runtime unchanged "
+        "through the query_text module for string literal arguments (two contexts, string literals of at most `units` units); parsing and validating the operation "
         "against a schema, unused variables, type compatibility and field merging need a whole compile and a GraphQL implementation and are outside the claim",
         "the collected set is what entrypoint_artifact / refetch_strategy turn into declarations for generated (refetch, imperative) operations; user-written "
         "entrypoint declarations are validated elsewhere (validate_use_of_arguments) and are outside this check",
